@@ -61,14 +61,14 @@ type Model struct {
 	LeafTypes []*types.Named // union terms of the leaf constraint
 	PoolVar   *types.Var
 
-	TreeIface *types.Named
-	Trees     []*TreeKind
-	Units     []*FuncUnit
-	ByName    map[string]*FuncUnit
-	ByObj     map[*types.Func]*FuncUnit
-	LitUnit   map[*ast.FuncLit]*FuncUnit
-	NoBody    map[*types.Func]*ast.FuncDecl // prototypes implemented in assembly
-	LitOfVar  map[*types.Var]*FuncUnit      // local variable bound once to a function literal
+	TreeIface      *types.Named
+	Trees          []*TreeKind
+	Units          []*FuncUnit
+	ByName         map[string]*FuncUnit
+	ByObj          map[*types.Func]*FuncUnit
+	LitUnit        map[*ast.FuncLit]*FuncUnit
+	NoBody         map[*types.Func]*ast.FuncDecl // prototypes implemented in assembly
+	LitOfVar       map[*types.Var]*FuncUnit      // local variable bound once to a function literal
 	LeafConstraint *types.Named
 
 	MaxPrefixLen int64
